@@ -162,6 +162,39 @@ func screenCheck(hi *Hist, frames []*Frame, facts []*BarFacts, prop string) *Vio
 		for _, r := range f.Rows {
 			expected = append(expected, stripSGR(r.Text))
 		}
+		// a bar's row group is its own row followed by its extender rows in order (or, for a reversed
+		// extender, preceded by them in reverse): on the live region and, later, among the persisted lines
+		if !c.Anon {
+			for _, g := range f.Groups {
+				if g.Bar < 0 || g.Bar >= len(facts) || g.Main < 0 {
+					continue
+				}
+				spec := facts[g.Bar].Spec
+				if spec.ExtRows == 0 || g.To-g.From != 1+spec.ExtRows {
+					continue // no extender, or clipped by the height
+				}
+				okShape := true
+				if !spec.ExtRev {
+					okShape = g.Main == g.From
+					for j := 0; j < spec.ExtRows && okShape; j++ {
+						okShape = f.Rows[g.From+1+j].Kind == 'X' && f.Rows[g.From+1+j].ExtJ == j
+					}
+				} else {
+					okShape = g.Main == g.To-1
+					for j := 0; j < spec.ExtRows && okShape; j++ {
+						okShape = f.Rows[g.From+j].Kind == 'X' && f.Rows[g.From+j].ExtJ == spec.ExtRows-1-j
+					}
+				}
+				note("row_group_shapes_checked")
+				if !okShape {
+					var got []string
+					for _, r := range f.Rows[g.From:g.To] {
+						got = append(got, clip(stripSGR(r.Text), 24))
+					}
+					return viol(prop, "row-group-shape", "frame %d: the rows of bar %d (extender with %d rows, reversed=%v) are out of order: %q", k, g.Bar, spec.ExtRows, spec.ExtRev, got)
+				}
+			}
+		}
 		note("frames_emulated")
 		if c.Terminal && vt.H > 0 && len(f.Rows)+2 >= vt.H {
 			note("tight_terminal")
